@@ -605,7 +605,7 @@ pub struct Reply {
 """
 
 
-def render_batch(batch, seed, decls, panics):
+def render_batch(batch, seed, decls, panics, tagcfgs=None, tag_eps=None):
     consts = "".join("pub const %s: semver::Version = semver::Version::new(%s);\n" % (
         vconst(v), ", ".join(v.split("."))) for v in VERSIONS)
     vers_consts = "".join("    pub const %s: semver::Version = semver::Version::new(%s);\n" % (
@@ -685,6 +685,135 @@ def render_batch(batch, seed, decls, panics):
                  "                dsverif::util::catch(|| { let _ = t%d::api_mod::stub_api_description(); }).is_err(),\n"
                  "            ],\n" % (d["name"], d["idx"], d["idx"], d["idx"]))
     o.append("        ]\n    }\n}\n")
+    if tagcfgs:
+        o.append(render_tagcfg(tagcfgs, tag_eps))
+    return "".join(o)
+
+
+# ----------------------------------------------------------------- trait-level tag_config
+
+TC_TAGSETS = {
+    "empty": [],
+    "one": [{"name": "t1", "description": None, "ext": None}],
+    "two": [{"name": "t1", "description": None, "ext": None},
+            {"name": "t2", "description": None, "ext": None}],
+    "two-details": [{"name": "t1", "description": "Tag one (ünï)",
+                     "ext": {"description": "external docs for t1", "url": "https://example.com/t1"}},
+                    {"name": "t2", "description": None,
+                     "ext": {"description": None, "url": "https://example.com/t2"}}],
+}
+
+
+def tagcfg_configs():
+    """absent; every policy x allow_other_tags x tag set; the two optional fields left out"""
+    out = [None]
+    for pol in ("Any", "AtLeastOne", "ExactlyOne"):
+        for allow in (True, False):
+            for ts in TC_TAGSETS:
+                out.append({"allow_other_tags": allow, "policy": pol, "tagset": ts, "tags": TC_TAGSETS[ts]})
+    for ts in TC_TAGSETS:
+        out.append({"allow_other_tags": None, "policy": None, "tagset": ts, "tags": TC_TAGSETS[ts]})
+    out.append({"allow_other_tags": True, "policy": None, "tagset": "empty", "tags": []})
+    out.append({"allow_other_tags": None, "policy": "AtLeastOne", "tagset": "one", "tags": TC_TAGSETS["one"]})
+    out.append({"allow_other_tags": None, "policy": "ExactlyOne", "tagset": "empty", "tags": []})
+    return [{"idx": i, "config": c} for i, c in enumerate(out)]
+
+
+def tagcfg_eps():
+    """endpoints that satisfy / violate the policies: no tag, one configured tag, one foreign
+    tag, two configured tags, no tag but unpublished (exempt), configured + foreign"""
+    out = []
+    for i, (tags, unp) in enumerate([([], False), (["t1"], False), (["zz"], False),
+                                     (["t1", "t2"], False), ([], True), (["t1", "zz"], False)]):
+        out.append({"idx": i, "label": "tagcfg", "kind": "endpoint", "name": "tc_e%d" % i,
+                    "path": "/tc/e%d" % i, "path_vars": [], "wildcard": None,
+                    "witness_path": "/tc/e%d" % i, "tags": tags, "operation_id": None,
+                    "deprecated": False, "unpublished": unp, "query": False, "versions": None,
+                    "method": "GET", "body": "none", "content_type": None, "max_bytes": None,
+                    "ret": "ok", "doc_pieces": [], "doc": []})
+    return out
+
+
+def tag_config_src(c):
+    if c is None:
+        return ""
+    parts = []
+    if c["allow_other_tags"] is not None:
+        parts.append("allow_other_tags = %s" % ("true" if c["allow_other_tags"] else "false"))
+    if c["policy"] is not None:
+        parts.append("policy = EndpointTagPolicy::%s" % c["policy"])
+    tags = []
+    for t in c["tags"]:
+        f = []
+        if t["description"] is not None:
+            f.append("description = %s" % rust_str(t["description"]))
+        if t["ext"] is not None:
+            g = []
+            if t["ext"]["description"] is not None:
+                g.append("description = %s" % rust_str(t["ext"]["description"]))
+            g.append("url = %s" % rust_str(t["ext"]["url"]))
+            f.append("external_docs = { %s }" % ", ".join(g))
+        tags.append("%s = { %s }" % (rust_str(t["name"]), ", ".join(f)))
+    parts.append("tags = { %s }" % ", ".join(tags))
+    return ", tag_config = { %s }" % ", ".join(parts)
+
+
+def render_tagcfg(cfgs, eps):
+    o = ["\n/// trait-level tag_config: per configuration a trait A with every probe endpoint and a\n"
+         "/// trait B with only the unpublished one (always buildable); the same endpoints as free functions\n"
+         "pub mod tagcfg {\n    use super::*;\n    use dropshot::{endpoint, ApiDescriptionBuildErrors};\n\n"]
+    for d in eps:
+        o.append(attr_src(d))
+        o.append(INDENT + "pub " + sig_src(d, "()", True) + "\n")
+    o.append("    pub fn register_fn(api: &mut ApiDescription<()>, i: usize) -> Result<(), String> {\n"
+             "        match i {\n")
+    for d in eps:
+        o.append("            %d => api.register(%s).map_err(|e| e.message().to_string()),\n" % (d["idx"], d["name"]))
+    o.append("            _ => panic!(\"no such endpoint\"),\n        }\n    }\n"
+             "    pub type Errs = Vec<(String, String)>;\n"
+             "    fn errs(e: ApiDescriptionBuildErrors) -> Errs {\n"
+             "        e.errors().iter().map(|x| (x.operation_id().to_string(), x.message().to_string())).collect()\n"
+             "    }\n"
+             "    pub struct Built {\n"
+             "        pub a_impl: Result<ApiDescription<()>, Errs>,\n"
+             "        pub a_stub: Result<ApiDescription<StubContext>, Errs>,\n"
+             "        pub b_impl: Result<ApiDescription<()>, Errs>,\n"
+             "        pub b_stub: Result<ApiDescription<StubContext>, Errs>,\n"
+             "    }\n")
+    for c in cfgs:
+        k = c["idx"]
+        tc = tag_config_src(c["config"])
+        o.append("    pub mod c%d {\n        use super::super::*;\n        use dropshot::EndpointTagPolicy;\n" % k)
+        o.append("        #[dropshot::api_description { module = \"a_mod\"%s }]\n"
+                 "        pub trait A {\n            type Context;\n" % tc)
+        for d in eps:
+            o.append(attr_src(d))
+            o.append(INDENT + sig_src(d, "Self::Context", False))
+        o.append("        }\n        pub enum ImplA {}\n        impl A for ImplA {\n            type Context = ();\n")
+        for d in eps:
+            o.append(INDENT + sig_src(d, "Self::Context", True))
+        o.append("        }\n")
+        o.append("        #[dropshot::api_description { module = \"b_mod\"%s }]\n"
+                 "        pub trait B {\n            type Context;\n" % tc)
+        for d in eps:
+            if d["unpublished"]:
+                o.append(attr_src(d))
+                o.append(INDENT + sig_src(d, "Self::Context", False))
+        o.append("        }\n        pub enum ImplB {}\n        impl B for ImplB {\n            type Context = ();\n")
+        for d in eps:
+            if d["unpublished"]:
+                o.append(INDENT + sig_src(d, "Self::Context", True))
+        o.append("        }\n    }\n")
+    o.append("    pub fn build(k: usize) -> Built {\n        match k {\n")
+    for c in cfgs:
+        k = c["idx"]
+        o.append("            %d => Built {\n"
+                 "                a_impl: c%d::a_mod::api_description::<c%d::ImplA>().map_err(errs),\n"
+                 "                a_stub: c%d::a_mod::stub_api_description().map_err(errs),\n"
+                 "                b_impl: c%d::b_mod::api_description::<c%d::ImplB>().map_err(errs),\n"
+                 "                b_stub: c%d::b_mod::stub_api_description().map_err(errs),\n"
+                 "            },\n" % (k, k, k, k, k, k, k))
+    o.append("            _ => panic!(\"no such configuration\"),\n        }\n    }\n}\n")
     return "".join(o)
 
 
@@ -823,8 +952,13 @@ def main():
         oid = d["operation_id"] if d["operation_id"] is not None else d["name"]
         assert oid not in seen, oid
         seen.add(oid)
-    open(os.path.join(a.out, "batch%d.rs" % a.batch), "w").write(render_batch(a.batch, seed, decls, panics))
-    json.dump({"batch": a.batch, "seed": seed, "decls": decls, "panics": panics},
+    # the trait-level tag_config grid is deterministic and lives in batch 0 only
+    tagcfgs = tagcfg_configs() if a.batch == 0 else []
+    tag_eps = tagcfg_eps() if a.batch == 0 else []
+    open(os.path.join(a.out, "batch%d.rs" % a.batch), "w").write(
+        render_batch(a.batch, seed, decls, panics, tagcfgs, tag_eps))
+    json.dump({"batch": a.batch, "seed": seed, "decls": decls, "panics": panics,
+               "tagcfgs": tagcfgs, "tag_eps": tag_eps},
               open(os.path.join(a.out, "batch%d.json" % a.batch), "w"), indent=0, ensure_ascii=False)
 
 
